@@ -57,3 +57,30 @@ Definition eval_mech_old (h : history) : list (obs * carried) := m_history_old i
 Definition import_reloads_dead : bool := true.
 Definition mech_variant (reloads : bool) (h : history) : list (obs * carried) :=
   if reloads then eval_mech h else eval_mech_old h.
+
+(* ---------- a design that looks equivalent and is not: the flag cleared where a FAILED run ends ----------
+   `handling_exception := false` in reset_stack (end of runtime_error, and reset()) instead of at the start of execute.
+   Every history of uncaught errors behaves the same; a run that ends SUCCESSFULLY with the flag set (SnSwallowOk,
+   SnParkFin) now hands the flag to the next run.  Kept to show that the Mechanism is sensitive to WHERE the flag is
+   cleared (ReuseRefine.late_flag_reset_refuted). *)
+Definition m_snippet_late (c : carried) (s : snip) : carried * obs :=
+  match s with
+  | SnReset => (with_he false (m_reset c), mkObs [] OReset [])
+  | _ =>
+    let c0 := m_add_chunks (chunks_of s) c in
+    if compiles s then
+      let r := run_instrs run_fuel (code_of s) (mkMS (with_fibers [fresh_fiber] c0) [] [] (KRuntime, "") Running) in
+      match ms_st r with
+      | Running => (m_run_ok (ms_c r), mkObs (ms_out r) OOk (ms_loads r))
+      | Uncaught k msg => (with_he false (m_runtime_error (ms_c r)), mkObs (ms_out r) (OErr k msg) (ms_loads r))
+      | Panicked msg => (ms_c r, mkObs (ms_out r) (OPanic msg) (ms_loads r))
+      | Diverged why => (ms_c r, mkObs (ms_out r) (ODiverged why) (ms_loads r))
+      end
+    else (c0, mkObs [] (OErr KCompile syntax_msg) [])
+  end.
+Fixpoint m_history_late (c : carried) (h : history) : list (obs * carried) :=
+  match h with
+  | [] => []
+  | s :: r => let '(c', o) := m_snippet_late c s in (o, c') :: m_history_late c' r
+  end.
+Definition eval_mech_late (h : history) : list (obs * carried) := m_history_late init_carried h.
